@@ -22,6 +22,7 @@ class Summaries:
         self.I = I
         self.cache = {}
         self.table = []
+        self.contract_table = []
         self.build()
 
     def named_const(self, st, fn, name):
@@ -45,7 +46,32 @@ class Summaries:
     def add(self, name, pattern, handler):
         self.table.append((name, re.compile(pattern), handler))
 
+    def add_contract(self, name, pattern, handler):
+        """function contract: a merged (fork-free) closed form of a *repository* function.  Only used when the
+        harness enables it (I.contracts_on), and every run proves it equivalent to the MIR of that function."""
+        self.contract_table.append((name, re.compile(pattern), handler))
+
+    def lookup_contract(self, name):
+        for n, rx, handler in self.contract_table:
+            if n == name:
+                return handler
+        raise Gap('no contract ' + name)
+
     def lookup(self, callee):
+        on = getattr(self.I, 'contracts_on', None)
+        if on:
+            key = ('c', callee)
+            h = self.cache.get(key)
+            if h is None:
+                c = norm(callee)
+                h = False
+                for name, rx, handler in self.contract_table:
+                    if rx.search(c):
+                        h = (name, handler)
+                        break
+                self.cache[key] = h
+            if h and h[0] in on:
+                return ('contract:' + h[0], h[1])
         h = self.cache.get(callee)
         if h is not None:
             return h if h else None
@@ -1080,6 +1106,60 @@ class Summaries:
 
         from . import env
         env.install(self)
+
+        # ---------------- function contracts (merged closed forms of repository kernels; see add_contract)
+        U256M_ = 2 ** 256 - 1
+
+        def c_from_subtraction(st, fn, callee, args, dty):
+            a = self.num(st, args[0])
+            b = self.num(st, args[1])
+            # Into<Uint128> of a Uint256 argument asserts that it fits
+            big = z3_or(a > U128_MAX, b > U128_MAX) if (is_sym(a) or is_sym(b)) else (a > U128_MAX or b > U128_MAX)
+            for st2, t in I.truth(st, big):
+                if t:
+                    yield st2, Panic('SignedInt::from_subtraction: operand does not fit Uint128')
+                else:
+                    neg = a < b
+                    yield st2, Agg('SignedInt', (U128(ite(neg, b - a, a - b)), neg))
+        self.add_contract('SignedInt::from_subtraction', r'SignedInt::from_subtraction$', c_from_subtraction)
+
+        def c_u256_mul_dec(st, fn, callee, args, dty):
+            x = self.num(st, args[0])
+            d = self.num(st, args[1])
+            a0 = I.val(st, args[0])
+            if isinstance(a0, Agg) and a0.ty == 'Decimal256':
+                x, d = d, x
+            q, _ = I.idiv(st, x * d, E18)
+            prod = x * d
+            bad = prod > U256M_
+            for st2, t in I.truth(st, bad):
+                if t:
+                    yield st2, Panic('U256 mul overflow')
+                else:
+                    yield st2, Agg('Uint256', (Agg('U256', (q,)),))
+        self.add_contract('Uint256*Decimal256', r'<(cosmwasm_bignumber::|math::)?Uint256 as std::ops::Mul<(cosmwasm_bignumber::|math::)?Decimal256>>::mul$|'
+                                                r'<(cosmwasm_bignumber::|math::)?Decimal256 as std::ops::Mul<(cosmwasm_bignumber::|math::)?Uint256>>::mul$', c_u256_mul_dec)
+
+        def c_new_withdraw_rate(st, fn, callee, args, dty):
+            amount = self.num(st, args[0])
+            rate = self.num(st, args[1])
+            total = self.num(st, args[2])
+            sl = I.val(st, args[3])
+            mag = self.num(st, sl.fields[0])
+            neg = sl.fields[1]
+            unb, _ = I.idiv(st, amount * rate, E18)
+            w = I.gdiv(st, unb * E18, total)
+            share, _ = I.idiv(st, w * mag, E18)
+            pos_share = share + ite(mag != 0, 1, 0)
+            actual = ite(neg, unb + ite(share > 1, share - 1, 0), ite(unb >= pos_share, unb - pos_share, 0))
+            res = ite(amount != 0, I.gdiv(st, actual * E18, amount), rate)
+            bad = z3_or(res > U128_MAX, actual > U128_MAX, unb > U128_MAX, z3.And(z3.Not(neg), pos_share > U128_MAX))
+            for st2, t in I.truth(st, bad):
+                if t:
+                    yield st2, Panic('calculate_new_withdraw_rate: value does not fit 128 bits')
+                else:
+                    yield st2, DEC(res)
+        self.add_contract('calculate_new_withdraw_rate', r'(^|::)calculate_new_withdraw_rate$', c_new_withdraw_rate)
 
     # ------------------------------------------------------------------ more helpers
     def h_ord_reverse(self, st, args):
